@@ -6,6 +6,7 @@ mod gentree;
 mod jtd;
 mod mutate;
 mod c16;
+mod c17;
 mod c18;
 mod scratch;
 
@@ -23,6 +24,7 @@ fn main() {
         "C09" => c09::run(tier, replay),
         "C10" => c10::run(tier, replay),
         "C16" => c16::run(tier, replay),
+        "C17" => c17::run(tier, replay),
         "C18" => c18::run(tier, replay),
         _ => {
             eprintln!("usage: gencheck C07|C08|C09|C10|C16|C17|C18|C19 quick|thorough");
